@@ -221,7 +221,7 @@ CHECKS = {
              "buffer), cut the source connection} with at most two cuts and an accept/refuse choice at every redial is executed for start offsets 0, 1, 2^31, 2^40. "
              "Oracle: every ACK is <= start + bytes received so far and never decreases; after an idle tick it equals start + bytes received; every reconnect sends "
              "PSYNC <runid> start+received+1; every fully received command is delivered by the parser exactly once across reconnects and tagged with its true end "
-             "position in the stream (the value checkpoints store). On every redial the model master refuses, accepts, or accepts and sends +CONTINUE together with the next 7 stream bytes in one write.",
+             "position in the stream (the value checkpoints store). On every redial the model master refuses, accepts, or accepts and sends +CONTINUE together with the next 7 stream bytes in one write. Two more case families keep the full phase running (WaitFull open) for the first stimuli or for all of them: every ACK sent meanwhile, reconnects included, must be 0.",
         note="production-size bufio buffers (32 MiB / 8 MiB) are allocated by the reconnect path itself; the first connection uses 4 KiB buffers passed as parameters; the tool gives up by design after its fourth retry, so at most two cuts are explored",
         rule="execution = (start offset, stimulus sequence, dial answers); states = distinct executions; transitions = stimuli; non-trivial = executions containing at least one acknowledgement tick",
         parts=[dict(pkg="./redis-shake/dbSync", harness=["dbsync"], test="^TestVerif_C08$", shards=16, gomaxprocs=2, budget=dict(quick=75, thorough=1200))],
@@ -267,7 +267,7 @@ CHECKS = {
              "scan.key_number 1-3, big_key_threshold below/above the payloads, key_exists none/rewrite with and without a pre-existing target key, target.db, key and db "
              "filters, and key-file driven scans with 0..2*page+1 lines. Oracle after exec returns: every surviving, passing key has the source's logical value in "
              "the right database; its remaining TTL at the moment of RESTORE equals the PTTL the source answered (no expiry stays no expiry); vanished and filtered "
-             "keys are skipped without stopping; the run returns within bounded fake time; a busy key under key_exists=none may stop the run but must not be overwritten silently. A key whose DUMP answered nil must not appear on the target; an expiring key that was gone when PTTL was asked must not appear as a persistent key.",
+             "keys are skipped without stopping; the run returns within bounded fake time; a busy key under key_exists=none may stop the run but must not be overwritten silently. A key whose DUMP answered nil must not appear on the target; an expiring key that was gone when PTTL was asked must not appear as a persistent key. Key files are also tried with one empty line at every position.",
         note="the order in which databases are visited is a Go map order (not controlled; the oracle is on the final state only); cluster and special-cloud scanners are out of scope",
         rule="case = one point of the product; states = distinct cases; transitions = 4 per case (scan, dump/pttl, restore, confirm phases); non-trivial = all cases",
         parts=[dict(pkg="./redis-shake", harness=["run"], test="^TestVerif_C16$", shards=16, gomaxprocs=2, budget=dict(quick=75, thorough=1200))],
@@ -295,7 +295,7 @@ CHECKS = {
              "case, the checkpoint key and near misses of it, a key named lua) in each of the databases {0,1,2,10,11}: an RDB through the real syncRDBFile and "
              "restoreRDBFile (2 workers), a command stream with SELECTs, script commands in mixed case, OPINFO and a sentinel hello through the real parser and sender, "
              "a model source through the real rump executor. The set of (db,key) pairs that reached the model target must equal the reference predicate for that path; "
-             "Lua scripts / script commands pass exactly when filter.lua is off; OPINFO and sentinel hellos never arrive. The predicates are also compared directly. The incremental path is additionally crossed with target.db in {-1, every source database (filtered ones too), an unused one}; every SET carries its source database in its value, databases are re-selected in reverse order, and per (db,key) the number of forwarded SETs must equal the number sent.",
+             "Lua scripts / script commands pass exactly when filter.lua is off; OPINFO and sentinel hellos never arrive. The predicates are also compared directly. The incremental path is additionally crossed with target.db in {-1, every source database (filtered ones too), an unused one}; every SET carries its source database in its value, databases are re-selected in reverse order, and per (db,key) the number of forwarded SETs must equal the number sent. The full-sync, restore and rump paths are crossed with the same target.db values: every value carries a marker of its source database and the (db,key) decisions are read from the command log of the model target.",
         note="key lists and db lists are used one kind at a time per dimension (the tool refuses whitelist and blacklist together for databases); quick crosses key and db lists on a diagonal, thorough fully",
         rule="execution = (path, configuration) carrying len(keys) x len(dbs) independent decisions (counted as transitions); non-trivial = configurations with at least one list set",
         parts=[dict(pkg="./redis-shake/dbSync", harness=["dbsync"], test="^TestVerif_C06$", shards=16, gomaxprocs=2, budget=dict(quick=75, thorough=900)),
